@@ -92,7 +92,8 @@ theorem Fields.has_iff {fs : Fields} {k : String} : fs.has k = true ↔ k ∈ fs
 /-- `DUnion(...)` collapsed when it has a single member -/
 def collapse (us : List Ty) : Ty := match us with | [x] => x | us => .union us
 
-/-- the three ways `mergeOne` can finish -/
+/-- the ways `mergeOne` can finish: new key; unchanged; union below the existing `DOptional`;
+    union with the existing non-optional type; an incoming `Optional[T]` replaces the existing `T` -/
 theorem mergeOne_cases {c : LitCfg} {e : EqEnv} {first : Bool} {fs fs' : Fields} {name : String} {field : Ty}
     (h : mergeOne c e first fs name field = .ok fs') :
     (fs.get? name = none ∧
@@ -102,7 +103,8 @@ theorem mergeOne_cases {c : LitCfg} {e : EqEnv} {first : Bool} {fs fs' : Fields}
        (∃ oi, orig = .opt oi ∧
           fs' = fs.set name (.opt (collapse (mkUnionMembers c (field.unionMembers ++ oi.unionMembers))))) ∨
        (orig.isOpt = false ∧
-          fs' = fs.set name (collapse (mkUnionMembers c (field.unionMembers ++ orig.unionMembers)))))) := by
+          fs' = fs.set name (collapse (mkUnionMembers c (field.unionMembers ++ orig.unionMembers)))) ∨
+       (orig.isOpt = false ∧ (∃ fi, field = .opt fi ∧ e.eq orig fi = .ok true) ∧ fs' = fs.set name field))) := by
   unfold mergeOne at h
   split at h
   · rename_i hg
@@ -114,24 +116,32 @@ theorem mergeOne_cases {c : LitCfg} {e : EqEnv} {first : Bool} {fs fs' : Fields}
     · rename_i oi
       rw [Except.bind_ok_iff] at h
       obtain ⟨b, _, h⟩ := h
-      rw [Except.bind_ok_iff] at h
-      obtain ⟨b2, _, h⟩ := h
       split at h
       · rw [Except.pure_ok_iff] at h; exact .inl h.symm
-      · rw [Except.pure_ok_iff] at h
-        exact .inr (.inl ⟨oi, rfl, h.symm⟩)
+      · rw [Except.bind_ok_iff] at h
+        obtain ⟨b2, _, h⟩ := h
+        split at h
+        · rw [Except.pure_ok_iff] at h; exact .inl h.symm
+        · rw [Except.pure_ok_iff] at h
+          exact .inr (.inl ⟨oi, rfl, h.symm⟩)
     · rename_i hno
       have hno' : orig.isOpt = false := by
         cases orig <;> simp [Ty.isOpt]
         exact hno _ rfl
       rw [Except.bind_ok_iff] at h
       obtain ⟨same, _, h⟩ := h
-      rw [Except.bind_ok_iff] at h
-      obtain ⟨sameInner, _, h⟩ := h
       split at h
       · rw [Except.pure_ok_iff] at h; exact .inl h.symm
-      · rw [Except.pure_ok_iff] at h
-        exact .inr (.inr ⟨hno', h.symm⟩)
+      · rw [Except.bind_ok_iff] at h
+        obtain ⟨sameInner, hsi, h⟩ := h
+        split at h
+        · rename_i hb
+          rw [Except.pure_ok_iff] at h
+          refine .inr (.inr (.inr ⟨hno', ?_, h.symm⟩))
+          subst hb
+          cases field <;> first | exact ⟨_, rfl, hsi⟩ | (simp [pure, Except.pure] at hsi)
+        · rw [Except.pure_ok_iff] at h
+          exact .inr (.inr (.inl ⟨hno', h.symm⟩))
 
 theorem Fields.get?_some_keys {fs : Fields} {k : String} {t : Ty} (h : fs.get? k = some t) :
     k ∈ fs.keys := by
@@ -181,9 +191,10 @@ theorem nodup_foldl_dstep {xs acc : List String} (h : acc.Nodup) : (xs.foldl dst
 
 theorem mergeOne_keys {c : LitCfg} {e : EqEnv} {first : Bool} {fs fs' : Fields} {name : String} {field : Ty}
     (h : mergeOne c e first fs name field = .ok fs') : fs'.keys = dstep fs.keys name := by
-  rcases mergeOne_cases h with ⟨_, h2⟩ | ⟨orig, hg, h2 | ⟨oi, _, h2⟩ | ⟨_, h2⟩⟩
+  rcases mergeOne_cases h with ⟨_, h2⟩ | ⟨orig, hg, h2 | ⟨oi, _, h2⟩ | ⟨_, h2⟩ | ⟨_, _, h2⟩⟩
   · rw [h2, Fields.keys_set]
   · rw [h2, dstep_of_mem (Fields.get?_some_keys hg)]
+  · rw [h2, Fields.keys_set]
   · rw [h2, Fields.keys_set]
   · rw [h2, Fields.keys_set]
 
@@ -261,7 +272,13 @@ def Qk (k : String) (fs : Fields) : Prop := ∀ kv ∈ fs, kv.1 = k → kv.2.isO
 theorem mergeOne_Q {c e first fs fs' name field} {k : String}
     (h : mergeOne c e first fs name field = .ok fs')
     (hq : Qk k fs) (hc : k ∈ fs.keys ∨ first = false) : Qk k fs' := by
-  rcases mergeOne_cases h with ⟨hg, h2⟩ | ⟨orig, hg, h2 | ⟨oi, _, h2⟩ | ⟨hno, h2⟩⟩
+  rcases mergeOne_cases h with ⟨hg, h2⟩ | ⟨orig, hg, h2 | ⟨oi, _, h2⟩ | ⟨hno, h2⟩ | ⟨_, ⟨fi, hfi, _⟩, h2⟩⟩
+  rotate_left 4
+  · subst h2; subst hfi
+    intro kv hkv hk
+    rcases Fields.mem_set hkv with h3 | h3
+    · subst h3; rfl
+    · exact hq kv h3 hk
   · subst h2
     intro kv hkv hk
     rcases Fields.mem_set hkv with h3 | h3
@@ -475,7 +492,15 @@ theorem mergeOne_R {c e first fs fs' name field} {k : String}
     (h : mergeOne c e first fs name field = .ok fs')
     (hr : Rk k fs) (hf : name = k → ¬ HasOptMember field)
     (hc : first = true ∨ k ∈ fs.keys) : Rk k fs' := by
-  rcases mergeOne_cases h with ⟨hg, h2⟩ | ⟨orig, hg, h2 | ⟨oi, ho, h2⟩ | ⟨hno, h2⟩⟩
+  rcases mergeOne_cases h with ⟨hg, h2⟩ | ⟨orig, hg, h2 | ⟨oi, ho, h2⟩ | ⟨hno, h2⟩ | ⟨_, _, h2⟩⟩
+  rotate_left 4
+  · subst h2
+    intro kv hkv hk
+    rcases Fields.mem_set hkv with h3 | h3
+    · subst h3
+      simp only at hk
+      exact hf hk
+    · exact hr kv h3 hk
   · subst h2
     intro kv hkv hk
     rcases Fields.mem_set hkv with h3 | h3
